@@ -144,5 +144,378 @@ theorem untilFixedPoint2_take [DecidableEq α] (ca : List (Grid α)) (i t : Nat)
   · have h' : ¬ i + 1 > 1 := by omega
     simp only [h', h, if_false]
 
+/-! ## Grid shapes in every memoize mode (any stateful rule) -/
+
+theorem plainSweep_rect [Inhabited α] (rule : Rule2 σ α) (g : Grid α) (r : Nat) (vn : Bool) (t : Nat)
+    {R C : Nat} :
+    ∀ (cells : List (Nat × Nat)) (next : Grid α) (s : σ), Rect next R C →
+      Rect (plainSweep rule g r vn t cells next s).1 R C
+  | [], _, _, h => h
+  | (i, j) :: rest, next, s, h => by
+    simp only [plainSweep]
+    exact plainSweep_rect rule g r vn t rest _ _ (Memo2D.rect_setCell h _ _ _)
+
+theorem memoSweep_rect [DecidableEq α] [Inhabited α] (rule : Rule2 σ α) (g : Grid α) (r : Nat) (vn : Bool)
+    (t : Nat) {R C : Nat} :
+    ∀ (cells : List (Nat × Nat)) (next : Grid α) (tbl : MemoTable2 α) (s : σ), Rect next R C →
+      Rect (memoSweep rule g r vn t cells next tbl s).1 R C
+  | [], _, _, _, h => h
+  | (i, j) :: rest, next, tbl, s, h => by
+    rw [memoSweep]
+    simp only
+    split
+    · exact memoSweep_rect rule g r vn t rest _ _ _ (Memo2D.rect_setCell h _ _ _)
+    · exact memoSweep_rect rule g r vn t rest _ _ _ (Memo2D.rect_setCell h _ _ _)
+
+theorem foldl_rect {β : Type} (F : β → RecSt2 σ α → RecSt2 σ α) {R C : Nat}
+    (hF : ∀ q st, Rect st.next R C → Rect (F q st).next R C) :
+    ∀ (qs : List β) (st : RecSt2 σ α), Rect st.next R C →
+      Rect (qs.foldl (fun acc q => F q acc) st).next R C
+  | [], _, h => h
+  | q :: qs, st, h => by
+    rw [List.foldl_cons]
+    exact foldl_rect F hF qs _ (hF q st h)
+
+theorem updateRec2_rect [DecidableEq α] [Inhabited α] (rule : Rule2 σ α) (r : Nat) (vn : Bool)
+    (g : Grid α) (t : Nat) {R C : Nat} :
+    ∀ (fuel : Nat) (b : Blk) (st : RecSt2 σ α), Rect st.next R C →
+      Rect (updateRec2 rule r vn g t fuel b st).next R C := by
+  intro fuel
+  induction fuel with
+  | zero => intro b st h; exact h
+  | succ fuel ih =>
+    intro b st h
+    rw [updateRec2]
+    split
+    · exact h
+    · simp only
+      split
+      · exact Memo2D.rect_setBlock h _ _
+      · split
+        · exact foldl_rect (fun q acc => updateRec2 rule r vn g t fuel q acc)
+            (fun q st' h' => ih q st' h') _ _ h
+        · exact Memo2D.rect_setCell h _ _ _
+
+theorem stepRec2_rect [DecidableEq α] [Inhabited α] (rule : Rule2 σ α) (r : Nat) (vn : Bool)
+    (g : Grid α) (t : Nat) (cache : RecCache2 α) (s : σ) :
+    Rect (stepRec2 rule r vn g t cache s).next g.length (gridCols g) := by
+  unfold stepRec2
+  simp only
+  exact foldl_rect (fun q acc => updateRec2 rule r vn g t (g.length + gridCols g + 1) q acc)
+    (fun q st' h' => updateRec2_rect rule r vn g t _ q st' h') _ _ (Memo2D.rect_zeroGrid _ _)
+
+/-- One step keeps the shape of the grid, in every mode (also the unsupported one) and for every rule. -/
+theorem step2_rect_any [DecidableEq α] [Inhabited α] (mode : Mode) (rule : Rule2 σ α) (r : Nat) (vn : Bool)
+    (g : Grid α) (t : Nat) (cs : Caches2 α) (s : σ) :
+    Rect (Cpl.step2 mode rule r vn g t cs s).1 g.length (gridCols g) := by
+  cases mode with
+  | recursive => exact stepRec2_rect rule r vn g t cs.rc s
+  | memo => exact memoSweep_rect rule g r vn t _ _ _ _ (Memo2D.rect_zeroGrid _ _)
+  | plain => exact plainSweep_rect rule g r vn t _ _ _ (Memo2D.rect_zeroGrid _ _)
+  | bad => exact plainSweep_rect rule g r vn t _ _ _ (Memo2D.rect_zeroGrid _ _)
+
+theorem fixedLoop2_rect [DecidableEq α] [Inhabited α] (mode : Mode) (rule : Rule2 σ α) (r : Nat) (vn : Bool)
+    {R C : Nat} (hR1 : 1 ≤ R) :
+    ∀ (k t : Nat) (g : Grid α) (cs : Caches2 α) (s : σ), Rect g R C →
+      ∀ g' ∈ (fixedLoop2 mode rule r vn k t g cs s).1, Rect g' R C
+  | 0, _, _, _, _, _ => by simp [fixedLoop2]
+  | k + 1, t, g, cs, s, hg => by
+    intro g' hg'
+    rw [fixedLoop2_succ] at hg'
+    simp only [List.mem_cons] at hg'
+    have hs : Rect (Cpl.step2 mode rule r vn g t cs s).1 R C := by
+      have := step2_rect_any mode rule r vn g t cs s
+      rwa [hg.1, Memo2D.rect_gridCols hg hR1] at this
+    rcases hg' with h | h
+    · rw [h]; exact hs
+    · exact fixedLoop2_rect mode rule r vn hR1 k _ _ _ _ hs g' h
+
+/-! ## Composition of 2D specification runs -/
+
+theorem run2_add [Inhabited α] (rule : Rule2 σ α) (R C r : Nat) (vn : Bool) :
+    ∀ (k1 k2 t : Nat) (g : Grid α) (s : σ),
+      run2 rule R C r vn (k1 + k2) t g s
+        = ((run2 rule R C r vn k1 t g s).1 ++
+            (run2 rule R C r vn k2 (t + k1) ((run2 rule R C r vn k1 t g s).1.getLast?.getD g)
+              (run2 rule R C r vn k1 t g s).2).1,
+           (run2 rule R C r vn k2 (t + k1) ((run2 rule R C r vn k1 t g s).1.getLast?.getD g)
+              (run2 rule R C r vn k1 t g s).2).2)
+  | 0, k2, t, g, s => by simp [run2]
+  | k1 + 1, k2, t, g, s => by
+    have e : k1 + 1 + k2 = (k1 + k2) + 1 := by omega
+    rw [e]
+    simp only [run2]
+    rw [run2_add rule R C r vn k1 k2 (t + 1)]
+    simp [List.getLast?_cons, Nat.add_assoc, Nat.add_comm 1 k1]
+
+theorem cellVals_timeFree [Inhabited α] (rule : Rule2 σ α) (htf : TimeFree2 rule) (g : Grid α)
+    (R C r : Nat) (vn : Bool) (t t' : Nat) :
+    ∀ (cs : List (Nat × Nat)) (s : σ),
+      cellVals rule g R C r vn t cs s = cellVals rule g R C r vn t' cs s
+  | [], _ => rfl
+  | (i, j) :: cs, s => by
+    simp only [cellVals]
+    rw [htf s _ (i, j) t t', cellVals_timeFree rule htf g R C r vn t t' cs]
+
+theorem run2_timeFree [Inhabited α] (rule : Rule2 σ α) (htf : TimeFree2 rule) (R C r : Nat) (vn : Bool) :
+    ∀ (k t t' : Nat) (g : Grid α) (s : σ),
+      run2 rule R C r vn k t g s = run2 rule R C r vn k t' g s
+  | 0, _, _, _, _ => rfl
+  | k + 1, t, t', g, s => by
+    simp only [run2, Spec.step2]
+    rw [cellVals_timeFree rule htf g R C r vn t t', run2_timeFree rule htf R C r vn k (t + 1) (t' + 1)]
+
+theorem run2_rect [Inhabited α] (rule : Rule2 σ α) (R C r : Nat) (vn : Bool) :
+    ∀ (k t : Nat) (g : Grid α) (s : σ), ∀ g' ∈ (run2 rule R C r vn k t g s).1, Rect g' R C
+  | 0, _, _, _ => by simp [run2]
+  | k + 1, t, g, s => by
+    intro g' hg'
+    simp only [run2, List.mem_cons] at hg'
+    rcases hg' with h | h
+    · rw [h]; exact spec_step2_rect rule g R C r vn t s
+    · exact run2_rect rule R C r vn k _ _ _ g' h
+
+theorem run2_getLast_rect [Inhabited α] (rule : Rule2 σ α) (R C r : Nat) (vn : Bool) (k t : Nat)
+    (g : Grid α) (s : σ) (hg : Rect g R C) :
+    Rect ((run2 rule R C r vn k t g s).1.getLast?.getD g) R C := by
+  cases h : (run2 rule R C r vn k t g s).1.getLast? with
+  | none => exact hg
+  | some g' => exact run2_rect rule R C r vn k t g s g' (List.mem_of_getLast? h)
+
+theorem pureRun2_rect [Inhabited α] (f : Nbhd2 α → α) (R C r : Nat) (vn : Bool) :
+    ∀ (k : Nat) (g : Grid α), ∀ g' ∈ pureRun2 f R C r vn k g, Rect g' R C
+  | 0, _ => by simp [pureRun2]
+  | k + 1, g => by
+    intro g' hg'
+    simp only [pureRun2, List.mem_cons] at hg'
+    rcases hg' with h | h
+    · rw [h]; exact Memo2D.rect_pureStep2 f R C r vn g
+    · exact pureRun2_rect f R C r vn k _ g' h
+
+theorem pureRun2_length [Inhabited α] (f : Nbhd2 α → α) (R C r : Nat) (vn : Bool) :
+    ∀ (k : Nat) (g : Grid α), (pureRun2 f R C r vn k g).length = k
+  | 0, _ => rfl
+  | k + 1, g => by simp only [pureRun2, List.length_cons, pureRun2_length f R C r vn k]
+
+theorem pureRun2_getLast_rect [Inhabited α] (f : Nbhd2 α → α) (R C r : Nat) (vn : Bool) (k : Nat)
+    (g : Grid α) (hg : Rect g R C) :
+    Rect ((pureRun2 f R C r vn k g).getLast?.getD g) R C := by
+  cases h : (pureRun2 f R C r vn k g).getLast? with
+  | none => exact hg
+  | some g' => exact pureRun2_rect f R C r vn k g g' (List.mem_of_getLast? h)
+
+theorem pureRun2_add [Inhabited α] (f : Nbhd2 α → α) (R C r : Nat) (vn : Bool) :
+    ∀ (k1 k2 : Nat) (g : Grid α),
+      pureRun2 f R C r vn (k1 + k2) g
+        = pureRun2 f R C r vn k1 g ++
+            pureRun2 f R C r vn k2 ((pureRun2 f R C r vn k1 g).getLast?.getD g)
+  | 0, k2, g => by simp [pureRun2]
+  | k1 + 1, k2, g => by
+    have e : k1 + 1 + k2 = (k1 + k2) + 1 := by omega
+    rw [e]
+    simp only [pureRun2]
+    rw [pureRun2_add f R C r vn k1 k2]
+    simp [List.getLast?_cons]
+
+theorem getLast?_append_some2 {β : Type} (hist rows : List β) (init : β)
+    (h : hist.getLast? = some init) :
+    (hist ++ rows).getLast? = some (rows.getLast?.getD init) := by
+  rw [List.getLast?_append, h]
+  cases rows.getLast? <;> rfl
+
 end
+
+/-! ## Block evolvers: shapes, composition, parity -/
+
+section block
+variable {σ α : Type}
+
+theorem blockLoop2_length [Inhabited α] (rule : BlockRule2 σ α) (b0 b1 k t : Nat) (g : Grid α) (s : σ) :
+    (blockLoop2 rule b0 b1 k t g s).1.length = k := by
+  induction k generalizing t g s with
+  | zero => rfl
+  | succ k ih => simp only [blockLoop2, List.length_cons, ih]
+
+theorem foldl_inv {β γ : Type} (P : γ → Prop) (F : γ → β → γ) (hF : ∀ acc x, P acc → P (F acc x)) :
+    ∀ (l : List β) (acc : γ), P acc → P (l.foldl F acc)
+  | [], _, h => h
+  | x :: l, acc, h => by
+    rw [List.foldl_cons]
+    exact foldl_inv P F hF l _ (hF acc x h)
+
+theorem writeIx2_rect [Inhabited α] {R C : Nat} (g : Grid α) (ri ci : List Nat) (vals : Grid α)
+    (hg : Rect g R C) : Rect (writeIx2 g ri ci vals) R C := by
+  unfold writeIx2
+  apply foldl_inv (fun acc : Grid α => Rect acc R C) _ _ _ _ hg
+  intro acc x hacc
+  apply foldl_inv (fun acc : Grid α => Rect acc R C) _ _ _ _ hacc
+  intro acc2 y hacc2
+  exact Memo2D.rect_setCell hacc2 _ _ _
+
+theorem blockSweep2_rect [Inhabited α] (rule : BlockRule2 σ α) (layer : Grid α) (t : Nat) {R C : Nat} :
+    ∀ (strides : List (List Nat × List Nat)) (arr : Grid α) (s : σ), Rect arr R C →
+      Rect (blockSweep2 rule layer t strides arr s).1 R C
+  | [], _, _, h => h
+  | (ri, ci) :: rest, arr, s, h => by
+    simp only [blockSweep2]
+    exact blockSweep2_rect rule layer t rest _ _ (writeIx2_rect _ _ _ _ h)
+
+theorem blockStep2_rect [Inhabited α] (rule : BlockRule2 σ α) (b0 b1 : Nat) (layer : Grid α) (t : Nat)
+    (s : σ) : Rect (blockStep2 rule b0 b1 layer t s).1 layer.length (gridCols layer) := by
+  unfold blockStep2
+  exact blockSweep2_rect rule layer t _ _ _ (Memo2D.rect_zeroGrid _ _)
+
+/-- A grid with the row count of `g` whose rows all have `gridCols g` cells has the same `gridCols`. -/
+theorem gridCols_of_rect {g g' : Grid α} (h : Rect g' g.length (gridCols g)) : gridCols g' = gridCols g := by
+  by_cases h0 : 1 ≤ g.length
+  · exact Memo2D.rect_gridCols h h0
+  · have hg : g = [] := List.length_eq_zero_iff.mp (by omega)
+    have hg' : g' = [] := List.length_eq_zero_iff.mp (by rw [h.1]; omega)
+    rw [hg, hg']
+
+theorem blockStep2_shape [Inhabited α] (rule : BlockRule2 σ α) (b0 b1 : Nat) (layer : Grid α) (t : Nat)
+    (s : σ) :
+    (blockStep2 rule b0 b1 layer t s).1.length = layer.length ∧
+    gridCols (blockStep2 rule b0 b1 layer t s).1 = gridCols layer :=
+  ⟨(blockStep2_rect rule b0 b1 layer t s).1, gridCols_of_rect (blockStep2_rect rule b0 b1 layer t s)⟩
+
+theorem blockLoop2_rect [Inhabited α] (rule : BlockRule2 σ α) (b0 b1 k t : Nat) (g : Grid α) (s : σ) :
+    ∀ g' ∈ (blockLoop2 rule b0 b1 k t g s).1, Rect g' g.length (gridCols g) := by
+  induction k generalizing t g s with
+  | zero => intro g' h; simp [blockLoop2] at h
+  | succ k ih =>
+    intro g' h
+    simp only [blockLoop2, List.mem_cons] at h
+    obtain ⟨e1, e2⟩ := blockStep2_shape rule b0 b1 g t s
+    rcases h with h | h
+    · rw [h]; exact blockStep2_rect rule b0 b1 g t s
+    · have := ih _ _ _ g' h
+      rwa [e1, e2] at this
+
+theorem blockLoop2_getLast_shape [Inhabited α] (rule : BlockRule2 σ α) (b0 b1 k t : Nat) (g : Grid α)
+    (s : σ) :
+    ((blockLoop2 rule b0 b1 k t g s).1.getLast?.getD g).length = g.length ∧
+    gridCols ((blockLoop2 rule b0 b1 k t g s).1.getLast?.getD g) = gridCols g := by
+  cases h : (blockLoop2 rule b0 b1 k t g s).1.getLast? with
+  | none => exact ⟨rfl, rfl⟩
+  | some g' =>
+    have := blockLoop2_rect rule b0 b1 k t g s g' (List.mem_of_getLast? h)
+    exact ⟨this.1, gridCols_of_rect this⟩
+
+theorem blockLoop2_add [Inhabited α] (rule : BlockRule2 σ α) (b0 b1 k1 k2 t : Nat) (g : Grid α) (s : σ) :
+    blockLoop2 rule b0 b1 (k1 + k2) t g s
+      = ((blockLoop2 rule b0 b1 k1 t g s).1
+          ++ (blockLoop2 rule b0 b1 k2 (t + k1) ((blockLoop2 rule b0 b1 k1 t g s).1.getLast?.getD g)
+              (blockLoop2 rule b0 b1 k1 t g s).2).1,
+         (blockLoop2 rule b0 b1 k2 (t + k1) ((blockLoop2 rule b0 b1 k1 t g s).1.getLast?.getD g)
+              (blockLoop2 rule b0 b1 k1 t g s).2).2) := by
+  induction k1 generalizing t g s with
+  | zero => simp [blockLoop2]
+  | succ k ih =>
+    have h : k + 1 + k2 = (k + k2) + 1 := by omega
+    rw [h]
+    simp only [blockLoop2]
+    rw [ih]
+    have ht : t + 1 + k = t + (k + 1) := by omega
+    rw [ht]
+    simp only [List.cons_append, List.getLast?_cons, Option.getD_some]
+
+theorem blockSweep2_timefree [Inhabited α] (rule : BlockRule2 σ α)
+    (htf : ∀ s blk t t', rule s blk t = rule s blk t') (layer : Grid α) (t t' : Nat)
+    (strides : List (List Nat × List Nat)) (arr : Grid α) (s : σ) :
+    blockSweep2 rule layer t strides arr s = blockSweep2 rule layer t' strides arr s := by
+  induction strides generalizing arr s with
+  | nil => rfl
+  | cons st rest ih =>
+    obtain ⟨ri, ci⟩ := st
+    simp only [blockSweep2]; rw [htf _ _ t t', ih]
+
+/-- For a time-free block rule a 2D step depends on `t` through its parity only. -/
+theorem blockStep2_parity [Inhabited α] (rule : BlockRule2 σ α)
+    (htf : ∀ s blk t t', rule s blk t = rule s blk t') (b0 b1 : Nat) (layer : Grid α) (t t' : Nat)
+    (hpar : t % 2 = t' % 2) (s : σ) :
+    blockStep2 rule b0 b1 layer t s = blockStep2 rule b0 b1 layer t' s := by
+  simp only [blockStep2, hpar]
+  exact blockSweep2_timefree rule htf _ _ _ _ _ _
+
+theorem blockLoop2_parity [Inhabited α] (rule : BlockRule2 σ α)
+    (htf : ∀ s blk t t', rule s blk t = rule s blk t') (b0 b1 k : Nat) (g : Grid α) (t t' : Nat)
+    (hpar : t % 2 = t' % 2) (s : σ) :
+    blockLoop2 rule b0 b1 k t g s = blockLoop2 rule b0 b1 k t' g s := by
+  induction k generalizing t t' g s with
+  | zero => rfl
+  | succ k ih =>
+    simp only [blockLoop2]
+    rw [blockStep2_parity rule htf b0 b1 g t t' hpar, ih _ (t + 1) (t' + 1) (by omega)]
+
+/-- `evolve2d_block` succeeds exactly when its four guards pass. -/
+theorem evolve2dBlock_ok_iff [Inhabited α] (hist : List (Grid α)) (init : Grid α)
+    (hlast : hist.getLast? = some init) (b0 b1 T : Nat) (rule : BlockRule2 σ α) (s s' : σ)
+    (out : List (Grid α)) :
+    evolve2dBlock hist b0 b1 T rule s = .ok (out, s') ↔
+      (T ≠ 0 ∧ b0 ≠ 0 ∧ b1 ≠ 0 ∧ init.length % b0 = 0 ∧ gridCols init % b1 = 0 ∧
+        out = hist ++ (blockLoop2 rule b0 b1 (T - 1) 1 init s).1 ∧
+        s' = (blockLoop2 rule b0 b1 (T - 1) 1 init s).2) := by
+  unfold evolve2dBlock
+  rw [hlast]
+  simp only
+  by_cases hT : T = 0
+  · simp [hT]
+  · rw [if_neg hT]
+    by_cases hb : b0 = 0 ∨ b1 = 0
+    · rw [if_pos hb]
+      constructor
+      · intro h; cases h
+      · intro h; rcases hb with hb | hb
+        · exact absurd hb h.2.1
+        · exact absurd hb h.2.2.1
+    · rw [if_neg hb]
+      by_cases hd : init.length % b0 ≠ 0 ∨ gridCols init % b1 ≠ 0
+      · rw [if_pos hd]
+        constructor
+        · intro h; cases h
+        · intro h; rcases hd with hd | hd
+          · exact absurd h.2.2.2.1 hd
+          · exact absurd h.2.2.2.2.1 hd
+      · rw [if_neg hd]
+        simp only [Except.ok.injEq, Prod.mk.injEq]
+        constructor
+        · rintro ⟨h1, h2⟩
+          exact ⟨hT, fun h => hb (Or.inl h), fun h => hb (Or.inr h),
+            Classical.not_not.mp (fun h => hd (Or.inl h)), Classical.not_not.mp (fun h => hd (Or.inr h)),
+            h1.symm, h2.symm⟩
+        · rintro ⟨_, _, _, _, _, h1, h2⟩
+          exact ⟨h1.symm, h2.symm⟩
+
+/-- `evolve_block` succeeds exactly when its guards pass. -/
+theorem evolveBlock_ok_iff [Inhabited α] (hist : List (List α)) (init : List α)
+    (hlast : hist.getLast? = some init) (b T : Nat) (rule : BlockRule1 σ α) (s s' : σ)
+    (out : List (List α)) :
+    evolveBlock hist b T rule s = .ok (out, s') ↔
+      (b ≠ 0 ∧ init.length % b = 0 ∧ T ≠ 0 ∧
+        out = hist ++ (blockLoop1 rule b (T - 1) 1 init s).1 ∧
+        s' = (blockLoop1 rule b (T - 1) 1 init s).2) := by
+  unfold evolveBlock
+  rw [hlast]
+  simp only
+  by_cases hb : b = 0
+  · simp [hb]
+  · rw [if_neg hb]
+    by_cases hd : init.length % b ≠ 0
+    · rw [if_pos hd]
+      constructor
+      · intro h; cases h
+      · intro h; exact absurd h.2.1 hd
+    · rw [if_neg hd]
+      by_cases hT : T = 0
+      · simp [hT]
+      · rw [if_neg hT]
+        simp only [Except.ok.injEq, Prod.mk.injEq]
+        constructor
+        · rintro ⟨h1, h2⟩
+          exact ⟨hb, Classical.not_not.mp hd, hT, h1.symm, h2.symm⟩
+        · rintro ⟨_, _, _, h1, h2⟩
+          exact ⟨h1.symm, h2.symm⟩
+
+end block
 end Cpl.Dyn2D
